@@ -9,6 +9,41 @@ use std::collections::HashSet;
 pub struct C13;
 
 pub fn scenario_case(s: &Scenario, rec: &mut CaseRec) -> Result<(), String> {
+    scenario_case_with(s, vec![], rec)
+}
+
+/// A scenario with one I/O fault injected into the output (a failing or short write, a failing seek, a failing read of
+/// the old output). A clone that fails is not C13's business; one that reports success must have obeyed the write rules.
+fn faulted_case(c: &(Scenario, crate::iod::WriteFault), rec: &mut CaseRec) -> Result<(), String> {
+    rec.class(match &c.1 {
+        crate::iod::WriteFault::ReadFail { .. } => "fault_read_of_old_output_fails",
+        crate::iod::WriteFault::SeekFail { .. } => "fault_seek_fails",
+        crate::iod::WriteFault::Fail { .. } => "fault_write_fails",
+        crate::iod::WriteFault::Short { .. } | crate::iod::WriteFault::Zero { .. } => "fault_short_write",
+        _ => "fault_pending",
+    });
+    scenario_case_with(&c.0, vec![c.1.clone()], rec)
+}
+
+fn faulted_strategy() -> impl Strategy<Value = (Scenario, crate::iod::WriteFault)> {
+    use crate::iod::{FaultKind, WriteFault};
+    let k = || prop_oneof![4 => 0usize..5, 3 => 0usize..12, 1 => 0usize..40];
+    let fault = prop_oneof![
+        4 => k().prop_map(|k| WriteFault::ReadFail { k }),
+        2 => k().prop_map(|k| WriteFault::SeekFail { k }),
+        2 => k().prop_map(|k| WriteFault::Fail { k, kind: FaultKind::Eio }),
+        1 => (k(), 1usize..8).prop_map(|(k, j)| WriteFault::Short { k, j }),
+        1 => k().prop_map(|k| WriteFault::Pending { k }),
+    ];
+    (scenario_strategy(8, true, true), fault).prop_map(|(mut s, f)| {
+        if s.prior.is_some() {
+            s.inplace = true;
+        }
+        (s, f)
+    })
+}
+
+fn scenario_case_with(s: &Scenario, faults: Vec<crate::iod::WriteFault>, rec: &mut CaseRec) -> Result<(), String> {
     if !s.cfg.chunker.is_valid() {
         rec.excluded = Some("invalid_config".into());
         return Ok(());
@@ -19,7 +54,9 @@ pub fn scenario_case(s: &Scenario, rec: &mut CaseRec) -> Result<(), String> {
         rec.excluded = Some("collision_guard".into());
         return Ok(());
     }
-    let o = evaluate_l1(s, &e, vec![])?;
+    let faulted = !faults.is_empty();
+    let o = evaluate_l1(s, &e, faults)?;
+    rec.class_if(faulted && o.report.result.is_ok(), "clone_succeeded_despite_the_injected_fault_(or_the_fault_was_never_reached)");
     // whether the clone succeeds and what the output holds in the end is judged by C01 / C02 / C03; here only the writes
     if o.report.result.is_err() {
         rec.excluded = Some("clone_failed_(judged_by_C01_C02_C03_not_here)".into());
@@ -107,7 +144,7 @@ impl Prop for C13 {
     }
     fn meta(&self, _tier: Tier) -> Meta {
         Meta {
-            rule: "cases = clone scenarios of C02/C03 (seeds, prior output, --seed-output, block device) observed at the output's write interface: L1 = logical writes (seek + contiguous data) of the instrumented in-memory output; L2 = iohook write log of the real bita process on the output path. Oracle over the whole log: every write is exactly one source chunk (per the reference chunker R1) at one of its source offsets, no location twice, no write at a location where the scan of the prior output (R1 on the prior content) already found the right chunk, nothing at or beyond the source length. Variant 'layout': abstract chunk layouts through the real planner/executor. Non-trivial = scenario with >=1 chunk already in place, >=1 moved and >=1 fetched chunk; distinct by Blake2 of the canonical case.".into(),
+            rule: "cases = clone scenarios of C02/C03 (seeds, prior output, --seed-output, block device) observed at the output's write interface: L1 = logical writes (seek + contiguous data) of the instrumented in-memory output; L2 = iohook write log of the real bita process on the output path. Oracle over the whole log: every write is exactly one source chunk (per the reference chunker R1) at one of its source offsets, no location twice, no write at a location where the scan of the prior output (R1 on the prior content) already found the right chunk, nothing at or beyond the source length. Variant 'layout': abstract chunk layouts through the real planner/executor. Variant 'faults': the L1 scenarios with one injected fault on the output (a read of the old output, a seek or a write fails with EIO; a short write; Pending): a clone that fails is outside C13, one that still reports success is held to the same write rules. Non-trivial = scenario with >=1 chunk already in place, >=1 moved and >=1 fetched chunk; distinct by Blake2 of the canonical case.".into(),
             assumptions: vec!["chunks above tokio's 2 MiB file buffer would be split into several write calls; logical writes coalesce contiguous calls after one seek".into()],
             ..Meta::default()
         }
@@ -116,6 +153,7 @@ impl Prop for C13 {
         let t = cx.tier;
         cx.run_prop("l1", t.pick(24_000, 400_000), scenario_strategy(8, true, true), scenario_case);
         cx.run_prop("layout", t.pick(200_000, 3_000_000), layout_strategy(), layout_case);
+        cx.run_prop("faults", t.pick(16_000, 300_000), faulted_strategy(), faulted_case);
         crate::props::l2scen::run_l2_variant(cx, "C13", t.pick(2400, 30000), scenario_strategy(8, true, true).boxed(), |_s, e, rec| {
             rec.nontrivial = !e.in_place_offsets.is_empty() && e.src_chunks.iter().any(|m| e.in_prior.contains(&m.key(e.hash_len)) && !e.in_place_offsets.contains(&m.off)) && !e.missing.is_empty();
         });
@@ -124,6 +162,7 @@ impl Prop for C13 {
         let mut rec = CaseRec::default();
         match variant {
             "l2" => crate::props::l2scen::replay_l2("C13", case, &mut rec),
+            "faults" => faulted_case(&serde_json::from_value(case.clone()).map_err(|e| e.to_string())?, &mut rec),
             "layout" => layout_case(&serde_json::from_value(case.clone()).map_err(|e| e.to_string())?, &mut rec),
             _ => scenario_case(&serde_json::from_value(case.clone()).map_err(|e| e.to_string())?, &mut rec),
         }
